@@ -6,6 +6,8 @@ CONSTANTS
   Configs <- AllConfigs
   Lite = FALSE
   Hold = FALSE
+  Burst = FALSE
+  DecidedInLoop = TRUE
   DrainAll = TRUE
   RejectChecksSlot = TRUE
 INVARIANTS EmitLeaf
